@@ -145,7 +145,13 @@ func ZZ_C15_SpzSH() {
 }
 
 // end to end: header + arrays in the published order; every attribute equals what its own array decodes to.
-func ZZ_C15_SpzReadOrder() {
+func ZZ_C15_SpzReadOrder() { zzSpzReadOrder(0) }
+
+// the same with a reader that may return short reads (the io.Reader contract; the real gzip reader does so at its
+// 32 KiB window boundaries): the result must not depend on how the stream is chunked
+func ZZ_C15_SpzReadShortReads() { zzSpzReadOrder(1) }
+
+func zzSpzReadOrder(short int) {
 	n := 1 + zz.Choose("n", zz.Bound("N"))
 	deg := zz.Choose("deg", 2)
 	dims := []int{0, 3, 8, 15}
@@ -158,7 +164,7 @@ func ZZ_C15_SpzReadOrder() {
 		stream = append(stream, part...)
 	}
 	zz.Reach("input")
-	cloud, err := Read(&zz.Buf{B: stream, Limit: -1})
+	cloud, err := Read(&zz.Buf{B: stream, Limit: -1, Short: short})
 	zz.Assert(err == nil, "Read failed on a complete stream")
 	if err != nil {
 		return
